@@ -702,6 +702,11 @@ func Run(c *common.Ctx) error {
 	if err := refusedImportOverLog(c); err != nil {
 		return err
 	}
+	for _, wal := range []bool{false, true} {
+		if err := importOtherPageSize(c, wal); err != nil {
+			return err
+		}
+	}
 	if err := forwardedFiles(c); err != nil {
 		return err
 	}
